@@ -38,6 +38,7 @@ type Op struct {
 	S  int    `json:"s"`  // session index
 	V  int    `json:"v"`  // variant
 	RR bool   `json:"rr"` // reply requested (attacks)
+	X  int    `json:"x,omitempty"` // attacks: index into resumeExtras (hostile attributes in the request ad)
 }
 
 type Case struct {
@@ -290,7 +291,25 @@ func refOpensWith(key []byte, own [][]byte, nOwnClear int, peerClear [][]byte, w
 
 // attack: a scripted requester on a new connection.
 // kinds: 0 right id + right key, 1 right id + wrong key, 2 right id + no key, 3 unknown id, 4.. id with one field changed
-func (w *world) attack(s *sess, kind int, rr bool) string {
+// resumeExtras: what a requester may put into its resumption request besides the id. None of it may
+// weaken what resumption promises (the connection is protected by the session key from the reply on).
+var resumeExtras = []map[string]any{
+	nil,
+	{"CryptoMethods": "BLOWFISH"},
+	{"CryptoMethods": ""},
+	{"CryptoMethods": "3DES,BLOWFISH"},
+	{"CryptoMethods": nil},
+	{"Encryption": "NO", "Integrity": "NO"},
+	{"Encryption": "NEVER", "Integrity": "NEVER", "Authentication": "NEVER"},
+	{"Encryption": false, "Enact": "YES"},
+	{"NewSession": "YES", "AuthMethods": "CLAIMTOBE", "Authentication": "OPTIONAL"},
+	{"CryptoMethods": "AESGCM"},
+	{"User": "root@evil", "TriedAuthentication": true, "Authentication": "YES"},
+	{"SessionDuration": "99999999", "SessionLease": 99999999},
+	{"ECDHPublicKey": "AAAA"},
+}
+
+func (w *world) attack(s *sess, kind int, rr bool, extra int) string {
 	sid := s.sid
 	var key []byte
 	switch {
@@ -318,7 +337,8 @@ func (w *world) attack(s *sess, kind int, rr bool) string {
 	var wg sync.WaitGroup
 	wg.Add(1)
 	go func() { defer wg.Done(); so = runServer(sc, true) }()
-	o := kit.PeerOpts{ResumeSid: sid, ResumeKey: key, ResumeResponse: rr, Command: 60011}
+	o := kit.PeerOpts{ResumeSid: sid, ResumeKey: key, ResumeResponse: rr, Command: 60011, ResumeExtra: resumeExtras[extra%len(resumeExtras)]}
+	hostile := o.ResumeExtra != nil
 	plog, pst := kit.ScriptedClient(cc, o, 2*time.Second)
 	attackMsg := []byte("ATTACKER-APPLICATION-BYTES")
 	if plog.Err == nil {
@@ -361,6 +381,9 @@ func (w *world) attack(s *sess, kind int, rr bool) string {
 		return ""
 	}
 	if so.err != nil {
+		if hostile {
+			return "" // refusing a request that carries odd attributes is always allowed
+		}
 		return fmt.Sprintf("server refused to resume a live keyed session presented with its id: %v", so.err)
 	}
 	if so.neg.User != s.user || so.neg.Authentication != s.authed || !so.neg.Encryption || !so.st.IsEncrypted() {
@@ -368,10 +391,10 @@ func (w *world) attack(s *sess, kind int, rr bool) string {
 	}
 	holdsKey := kind == 0
 	if holdsKey {
-		if so.appErr != nil || !bytes.Equal(so.appMsg, attackMsg) {
+		if (so.appErr != nil || !bytes.Equal(so.appMsg, attackMsg)) && !hostile {
 			return fmt.Sprintf("control: requester holding the right key could not deliver a message (%v)", so.appErr)
 		}
-		if !rr {
+		if !rr && !hostile {
 			// a legacy-style resumption (no reply requested) by a key holder: keep it for the replay action
 			s.recs = append(s.recs, recording{c2s: cc.Written(), s2c: sc.Written(), appMsg: attackMsg, legacy: true})
 		}
@@ -524,7 +547,7 @@ func runCase(c Case) (string, *world) {
 				if !s.alive {
 					w.stats.deadResumes++
 				}
-				v = w.attack(s, op.V%9, op.RR)
+				v = w.attack(s, op.V%9, op.RR, op.X)
 			}
 		case "replay":
 			if s != nil {
@@ -545,7 +568,11 @@ func genCase(t *rapid.T) Case {
 	n := rapid.IntRange(3, 12).Draw(t, "nops")
 	for i := 0; i < n; i++ {
 		k := rapid.SampledFrom([]string{"establish", "resume", "resume", "expire", "invalidate", "attack", "attack", "attack", "replay", "replay"}).Draw(t, "op")
-		c.Ops = append(c.Ops, Op{K: k, S: rapid.IntRange(0, 2).Draw(t, "s"), V: rapid.IntRange(0, 40).Draw(t, "v"), RR: rapid.Bool().Draw(t, "rr")})
+		x := 0
+		if k == "attack" && rapid.Bool().Draw(t, "hostileAd") {
+			x = rapid.IntRange(1, len(resumeExtras)-1).Draw(t, "x")
+		}
+		c.Ops = append(c.Ops, Op{K: k, S: rapid.IntRange(0, 2).Draw(t, "s"), V: rapid.IntRange(0, 40).Draw(t, "v"), RR: rapid.Bool().Draw(t, "rr"), X: x})
 	}
 	return c
 }
@@ -621,6 +648,26 @@ func TestC06Sweep(t *testing.T) {
 			}
 		}
 	}
+	// every hostile request-ad attribute set, for each kind of requester, on a live session
+	for est := 0; est < 4; est++ {
+		for x := 1; x < len(resumeExtras); x++ {
+			for kind := 0; kind < 3; kind++ {
+				for _, rr := range []bool{true, false} {
+					for _, own := range []bool{false, true} {
+						c := Case{Own: own, Ops: []Op{{K: "establish", V: est}, {K: "resume"}, {K: "attack", V: kind, RR: rr, X: x}, {K: "resume"}}}
+						v, w := runCase(c)
+						record(c, w)
+						if v != "" && bad < 6 {
+							bad++
+							kit.Violation("C06", v, c)
+							t.Errorf("C06 violated: %s", v)
+						}
+					}
+				}
+			}
+		}
+	}
+	ev.Exhaustive("4 establishment kinds x 12 hostile request-ad attribute sets x {key holder, wrong key, no key} x {reply requested, not} x {global, own cache}")
 	ev.Exhaustive("4 establishment kinds x 6 lifetime points x 9 attack kinds x {reply requested, not} x {server on the global cache, server with its own cache}, each followed by an honest resume and replays of both directions")
 }
 
